@@ -11,16 +11,16 @@ U2 = ["u1", "u2"]
 C0, C02 = ["channel-0"], ["channel-0", "channel-2"]
 
 
-FORMS, DNS, MEMOS = ["bech", "hex"], ["fx", "tb", "t1", "vx"], ["none", "junk", "good", "goodAs", "bad"]
+FORMS, DNS, MEMOS = ["bech", "hex"], ["fx", "tb", "t1", "vx", "f1", "fh"], ["none", "junk", "good", "goodAs", "bad"]
 
 
-def consts(chan, amt, maxseq, maxin, fx=1, coin=1, erc=1, esc=1, pool=4, form=FORMS, dn=DNS, memo=MEMOS):
+def consts(chan, amt, maxseq, maxin, fx=1, coin=1, erc=1, esc=1, pool=4, form=FORMS, dn=DNS, memo=MEMOS, wchan=None):
     return dict(Acct=U2, Chan=chan, Amt=amt, MaxSeq=maxseq, MaxIn=maxin, InitFx=fx, InitCoin=coin, InitErc=erc, InitEsc=esc, InitPool=pool,
-                Form=form, Dn=dn, Memo=memo)
+                Form=form, Dn=dn, Memo=memo, WChan=chan[:1] if wchan is None else wchan)
 
 
 def harness(c):
-    h = {k: c[k] for k in ("Acct", "Chan", "MaxSeq", "MaxIn", "InitFx", "InitCoin", "InitErc", "InitEsc", "InitPool")}
+    h = {k: c[k] for k in ("Acct", "Chan", "MaxSeq", "MaxIn", "InitFx", "InitCoin", "InitErc", "InitEsc", "InitPool", "WChan")}
     h["chain"] = "+".join(x.replace("channel-", "c") for x in c["Chan"])
     return h
 
@@ -30,14 +30,14 @@ def cfg(name, tiers, c, shards=14, rej_sample=0, **kw):
 
 
 DEV = consts(C0, [1], 1, 1)
-Q1 = consts(C0, [1], 2, 1, memo=["none", "good", "bad"])
+Q1 = consts(C0, [1], 2, 1, memo=["none", "good", "bad"], dn=["fx", "t1", "vx", "f1"], wchan=[])  # "FX" by name, no pair
 Q2 = consts(C0, [1], 1, 2)
 M1 = consts(C0, [1, 2], 2, 2, fx=2, pool=4)
 M2 = consts(C02, [1], 1, 1, pool=2)
-T1 = consts(C0, [1], 2, 1)
+T1 = consts(C0, [1], 2, 1, wchan=[])
 T2 = consts(C0, [1, 2], 1, 1, fx=2, coin=2, erc=2, esc=2, pool=8)
 T3 = consts(C02, [1], 1, 0, pool=2, dn=["fx", "t1"], memo=["none", "good"])
-T4 = consts(C02, [1], 0, 1, pool=2, dn=["fx", "tb", "t1"], memo=["none", "good", "bad"])
+T4 = consts(C02, [1], 0, 1, pool=2, dn=["fx", "tb", "t1", "f1", "fh"], memo=["none", "good", "bad"])
 
 M1Q = consts(C0, [1, 2], 2, 1, fx=2, pool=4)
 M2Q = consts(C02, [1], 1, 0, pool=2)
@@ -81,6 +81,6 @@ specs.REGISTRY["C19"] = run
 specs.MANIFEST["C19"] = dict(
     category="model_checking",
     technique="TLA+ spec IbcTransfer.tla (fxcore side of ICS-20 channels + the other chain as environment): TLC exhaustive model check + replay of every TLC-generated transition on the real IBC core/transfer/middleware/precompile stack over the localhost client + TLC evaluation of the C19 formulas on recorded real behaviours",
-    text="Every inbound packet class (receiver bech32/hex; FX coming home, bridged alias, registered voucher, unknown voucher; memo none / not a call / call succeeding / call naming a local account as sender / call reverting) either credits exactly the amount to exactly the receiver (ERC-20 for everything but native FX) with a success acknowledgement, or changes no holding, backing balance or contract state with an error acknowledgement; the EVM sender of a memo call is the address derived from port, channel and packet sender and never a local account; every outbound transfer (crossChain precompile with FX value or ERC-20, MsgTransfer) is refunded exactly once, never refused, to its sender in the form it was taken from on error acknowledgement or timeout, under all interleavings with replays of every answer; the (channel, sequence) relation record exists exactly while an ERC-20 transfer started from the EVM is in flight; FX and T are conserved across holdings, escrow and parked vouchers.",
+    text="Every inbound packet class (receiver bech32/hex; FX coming home, bridged alias, registered voucher, unknown voucher, the other chain's own token named FX with and without a registered pair, the same name behind a multi-hop path; memo none / not a call / call succeeding / call naming a local account as sender / call reverting) either credits exactly the amount to exactly the receiver (ERC-20 for everything but native FX) with a success acknowledgement, or changes no holding, backing balance or contract state with an error acknowledgement; the EVM sender of a memo call is the address derived from port, channel and packet sender and never a local account; every outbound transfer (crossChain precompile with FX value or ERC-20, MsgTransfer) is refunded exactly once, never refused, to its sender in the form it was taken from on error acknowledgement or timeout, under all interleavings with replays of every answer; the (channel, sequence) relation record exists exactly while an ERC-20 transfer started from the EVM is in flight; FX and T are conserved across holdings, escrow and parked vouchers.",
     note="bounded: 2 accounts, 1-2 channels, <=3 packets each way per channel, amounts 1-2; counterparty simulated over the localhost client (real proof verification, commitments, receipts, discard-on-error); parked vouchers of T built by a documented world shortcut; trusted: TLC, abstraction function (bank balances, balanceOf, IBC core store, erc20 store 0x04, recorder contract slot)",
     ref="5 (C19)")
